@@ -1,5 +1,5 @@
 (* Proofs for C18 (and the importer part of C12) over the regenerated importer tables. *)
-From Coq Require Import List String Ascii Bool ZArith.
+From Coq Require Import List String Ascii Bool ZArith Lia.
 From KV Require Import Strings CatGen Cat CatProofs SpineImpGen SpineImp.
 Import ListNotations.
 Open Scope string_scope.
@@ -103,3 +103,56 @@ End Facts.
 
 Example claimed_examples : claimed "**text" = true /\ claimed "**silbe" = true /\ claimed "**kern" = false.
 Proof. vm_compute. repeat split. Qed.
+
+(* ------------------------------------------------------------------ C12: history independence *)
+Section History.
+  Variable T : Type.
+  Variable recog : string -> option T * nat.
+
+  (* with a fresh listener per call the outcome for a cell never depends on the listener state left by earlier cells *)
+  Lemma kern_import_fresh st s : fst (kern_import T recog true st s) = fst (kern_import T recog true 0 s).
+  Proof. unfold kern_import. destruct (String.eqb s ""); [reflexivity|]. destruct (recog s) as [p e]. reflexivity. Qed.
+
+  Theorem history_independent : forall h st,
+    run_history T recog true st h = map (fun s => fst (kern_import T recog true 0 s)) h.
+  Proof.
+    induction h as [|s h IH]; intros st; simpl; [reflexivity|].
+    destruct (kern_import T recog true st s) as [o st'] eqn:E. rewrite IH. f_equal.
+    rewrite <- (kern_import_fresh st s), E. reflexivity.
+  Qed.
+
+  (* hence any two orders of the same cells give every cell the same outcome *)
+  Corollary outcome_of_cell_fixed h1 h2 st1 st2 s :
+    nth (List.length h1) (run_history T recog true st1 (h1 ++ [s])) (RErr "") =
+    nth (List.length h2) (run_history T recog true st2 (h2 ++ [s])) (RErr "").
+  Proof.
+    rewrite !history_independent, !map_app. simpl.
+    set (f := fun s0 => fst (kern_import T recog true 0 s0)).
+    assert (G : forall h, nth (List.length h) (map f h ++ [f s]) (RErr "") = f s).
+    { intros h. rewrite app_nth2; rewrite map_length; [|lia]. now rewrite Nat.sub_diag. }
+    now rewrite !G.
+  Qed.
+
+  (* a well-formed cell (no syntax error reported, parse succeeds) is returned as its token; anything else raises *)
+  Theorem outcome_is_recogniser s t : s <> "" -> recog s = (Some t, 0) -> forall st, fst (kern_import T recog true st s) = RKept t.
+  Proof.
+    intros Hs Hr st. unfold kern_import. rewrite (nonempty_eqb s Hs), Hr. reflexivity.
+  Qed.
+  Theorem malformed_raises s : (fst (recog s) = None \/ 0 < snd (recog s)) -> forall st, exists e, fst (kern_import T recog true st s) = RErr e.
+  Proof.
+    intros H st. unfold kern_import. destruct (String.eqb s ""); [eexists; reflexivity|].
+    destruct (recog s) as [p e]. simpl in H. destruct p as [t|]; [|eexists; reflexivity].
+    destruct H as [H|H]; [discriminate|]. simpl.
+    destruct (Nat.ltb 0 e) eqn:E; [eexists; reflexivity|]. apply Nat.ltb_ge in E. lia.
+  Qed.
+End History.
+
+(* the importer in the source tree does replace its listener at every call (flag regenerated from the source) *)
+Lemma kern_listener_is_fresh : kern_fresh_flag = Some true.
+Proof. vm_compute. reflexivity. Qed.
+
+(* with a listener kept for the importer's lifetime the property fails: witness history *)
+Definition demo_recog (s : string) : option nat * nat := if String.eqb s "4zz" then (Some 0, 1) else (Some 1, 0).
+Lemma sticky_listener_refuted :
+  run_history nat demo_recog false 0 ["4zz"; "4c"] <> map (fun s => fst (kern_import nat demo_recog false 0 s)) ["4zz"; "4c"].
+Proof. vm_compute. discriminate. Qed.
